@@ -1506,7 +1506,7 @@ func (c *ctx) phaseSearch(analyzers []hlAnalyzer, engines []bx.Engine, words, se
 // ---------------------------------------------------------------------------------------------
 
 func Run(r *mc.Run) {
-	c := &ctx{r: r, coll: &collector{m: map[string]*vent{}}, stall: mc.Pick(r, 25*time.Second, 60*time.Second),
+	c := &ctx{r: r, coll: &collector{m: map[string]*vent{}}, stall: mc.Pick(r, 60*time.Second, 120*time.Second),
 		outcomes: map[string]bool{}, observed: map[string]int64{}, searchErrors: map[string]string{}}
 
 	r.Rule("E2. (A) every analyzer, tokenizer, token filter (on the output of each driver tokenizer) and char filter found in the registry at run time — components needing a configuration get the minimal ones listed under components_built — × every string of ≤ L symbols over the 14-symbol alphabet (see alphabet, string_length_bound_by_kind) plus long-token/repeated patterns: no panic, terminates, tokenizers satisfy 0 ≤ Start ≤ End ≤ len(input), starts non-decreasing, positions ≥ 1 and non-decreasing. (B) every registered highlighter and every formatter × fragment size {1,2,5}, driven directly on every short stored value × every single term location (also cutting runes, also up to 2 bytes beyond the value) and every pair of in-range locations: no panic. (C) real indexes whose field analyzer is a registered analyzer or one of 12 custom ones × all 3-word documents over a word alphabet (multi-byte words, '<b>', '&', apostrophe, camel case, empty word, invalid byte) × separators, array values, long texts × 18 queries × highlighters {html, ansi} × fragment sizes: no panic; where the char filters keep the length of the stored value, each fragment with separator, markup and escaping removed is a contiguous slice of the stored value placed consistently with the separators, every marked span is the bytes of a reported location (or the union of overlapping ones), and for analyzers that only split / drop / case-fold the marked text is the matched term. An outcome is (component kind, token-count bucket | char-filter length change | highlighter, fragment size, fragments, marks).")
